@@ -3,6 +3,7 @@ package c03
 
 import (
 	"context"
+	"sync/atomic"
 	"encoding/json"
 	"fmt"
 	"strings"
@@ -93,7 +94,23 @@ func setup(c combo, seed int64, idx int) (dir string, db sopx.DB, before, after 
 	return dir, db, b, b.Apply(prog), prog, nil
 }
 
+// read runs the reader with a watchdog: a reader that never returns (it loops inside the library on an
+// inconsistent tree) is recorded as an unreadable store; the spinning goroutine is abandoned.
 func read(db sopx.DB, mode string) (d sopx.Dump) {
+	done := make(chan sopx.Dump, 1)
+	go func() { done <- readRaw(db, mode) }()
+	select {
+	case d = <-done:
+		return d
+	case <-time.After(15 * time.Second):
+		hung.Store(true)
+		return sopx.Dump{Stores: []string{"alpha"}, By: map[string]sopx.StoreDump{"alpha": {Err: "reader hung: no answer within 15 s"}}}
+	}
+}
+
+var hung atomic.Bool
+
+func readRaw(db sopx.DB, mode string) (d sopx.Dump) {
 	m := sop.ForReading
 	if mode == "nocheck" {
 		m = sop.NoCheck
@@ -186,7 +203,7 @@ func round(i int, seed int64, extra []string) any {
 		default:
 			sr.Phase = "after-commit-point"
 		}
-		if c.Outcome == "fail" && sr.Phase != "before-commit-point" {
+		if c.Outcome == "fail" && sr.Phase == "after-commit-point" {
 			continue // a failure after the commit point does not abort the transaction
 		}
 		dir, db, before, after, prog, err := setup(c, seed, i)
@@ -218,6 +235,7 @@ func round(i int, seed int64, extra []string) any {
 		done := make(chan error, 1)
 		go func() { done <- wt.Commit(ctx) }()
 		var werr error
+		var pendingGot *sopx.Dump
 		finished := false
 		select {
 		case <-p.Paused:
@@ -234,7 +252,10 @@ func round(i int, seed int64, extra []string) any {
 				expect, sr.Expect = after, "after"
 			}
 			got := read(db, c.Reader)
-			if sr.Phase == "flip-window" {
+			if sr.Phase == "flip-window" && c.Outcome == "fail" {
+				// judged below, once it is known whether the injected failure really aborted the writer
+				pendingGot = &got
+			} else if sr.Phase == "flip-window" {
 				sr.Expect = "before-or-after"
 				if d1 := txn.DiffContent(got, before.Dump()); d1 != "" {
 					if d2 := txn.DiffContent(got, after.Dump()); d2 != "" {
@@ -264,6 +285,25 @@ func round(i int, seed int64, extra []string) any {
 		if werr != nil {
 			sr.WriterErr = werr.Error()
 		}
+		if pendingGot != nil {
+			if werr != nil {
+				// the writer failed inside its commit-point call and rolled back: what the reader saw
+				// meanwhile must not have come from that (failed) transaction
+				sr.Expect = "before"
+				sr.ReadDiff = txn.DiffContent(*pendingGot, before.Dump())
+			} else {
+				// the failure was tolerated (e.g. a cache refresh): the writer committed
+				sr.Expect = "before-or-after"
+				if d1 := txn.DiffContent(*pendingGot, before.Dump()); d1 != "" {
+					if d2 := txn.DiffContent(*pendingGot, after.Dump()); d2 != "" {
+						sr.ReadDiff = "neither before nor after: vs before: " + d1 + " || vs after: " + d2
+						if strings.Contains(d1, "COUNT-ONLY") {
+							sr.ReadDiff = d1
+						}
+					}
+				}
+			}
+		}
 		// after the writer ended: committed => after, aborted => before (C03's "after it aborts" clause)
 		final := before
 		if werr == nil {
@@ -272,6 +312,9 @@ func round(i int, seed int64, extra []string) any {
 		sr.FinalDiff = txn.DiffContent(read(db, c.Reader), final.Dump())
 		res.Sites = append(res.Sites, sr)
 		env.Remove(dir)
+		if hung.Load() {
+			break // a spinning reader goroutine is left behind: do not pile more work on this process
+		}
 	}
 	return res
 }
@@ -349,6 +392,6 @@ func Run(r *report.Run) int {
 	return r.Finish(rule, assumptions, 50)
 }
 
-const rule = "writer programs (shapes with updated nodes: S6 updates, S4 split, S7 removes; thorough adds S2,S3,S5,S8) on the mirror path are parked, one run per site, at EVERY decorator call site of their commit; while the writer is parked a reader transaction of another session (public path, ForReading; thorough also NoCheck) scans the store and reads Count(); it must see the pre-writer state at every site up to and including the commit-point call reg.UpdateNoLocks(true), the post state after it, and either inside the block-write window of that call; then the writer resumes and commits, or resumes into an injected failure and rolls back, and a later reader must see after / before; fingerprint = (shape, profile, outcome, reader mode, site); non-trivial = the reader completed while the writer was parked"
+const rule = "writer programs (shapes with updated nodes: S6 updates, S4 split, S7 removes; thorough adds S2,S3,S5,S8) on the mirror path are parked, one run per site, at EVERY decorator call site of their commit; while the writer is parked a reader transaction of another session (public path, ForReading; thorough also NoCheck) scans the store and reads Count(); it must see the pre-writer state at every site up to and including the commit-point call reg.UpdateNoLocks(true), the post state after it, and either inside the block-write window of that call when the writer goes on to commit, and the pre-writer state there too when the writer is about to fail in that window; then the writer resumes and commits, or resumes into an injected failure and rolls back, and a later reader must see after / before; fingerprint = (shape, profile, outcome, reader mode, site); non-trivial = the reader completed while the writer was parked"
 
 var assumptions = []string{"mirror-path writer, public-path reader, same process (shared L1/L2 caches)", "standalone in-memory L2", "shapes without an updated node (first root of an empty store) are excluded: their commit point is not the flip call"}
